@@ -4,6 +4,9 @@ and the points excluded by (F) clauses.
 -/
 import PsdVerif.Lemmas.CodecSamples
 import PsdVerif.Model.PayloadLayerInfo
+import PsdVerif.Model.PayloadSimple
+import PsdVerif.Model.DescriptorTables
+import PsdVerif.Lemmas.Descriptor3
 
 namespace PsdVerif.Payload.Samples
 open PsdVerif PsdVerif.Codec PsdVerif.Psd PsdVerif.Psd.Samples
@@ -45,5 +48,37 @@ def deepDocStale : DeepPSD :=
 
 /-- `LayerInfoBlock()`: layer_count 0, records None, channel data None -/
 def blockNone : LayerInfo := ⟨0, none, none⟩
+
+/-! ### unit 2 -/
+
+def s8BIM' : B := [56, 66, 73, 77]
+def rgb : Color := ⟨0, [65535, 0, 1, 0]⟩
+def lab : Color := ⟨7, [100, -128, 127, -32768]⟩
+def customSpace : Color := ⟨12345, [1, 2, 3, 4]⟩
+
+def dividerKindOnly : SectionDividerSetting := ⟨3, none, none, none⟩
+def dividerBlend : SectionDividerSetting := ⟨1, some s8BIM', some kPass, none⟩
+def dividerSub : SectionDividerSetting := ⟨2, some s8BIM', some kNorm, some 1⟩
+/-- excluded by (iii): a sub type without signature and key -/
+def dividerSubOnly : SectionDividerSetting := ⟨1, none, none, some 5⟩
+/-- excluded by (iii): a signature without a blend mode -/
+def dividerSigOnly : SectionDividerSetting := ⟨1, some s8BIM', none, none⟩
+
+def kCust : B := [99, 117, 115, 116]
+def kMdyn : B := [109, 100, 121, 110]
+def kXyzw : B := [120, 121, 122, 119]
+/-- the three kinds of metadata: a descriptor (`cust`), an integer (`mdyn`), raw bytes under an unknown key -/
+def metadata : List MetadataSetting :=
+  [⟨s8BIM', kCust, true, .desc Descriptor.Samples.block⟩, ⟨[56, 69, 76, 69], kMdyn, false, .int 7⟩,
+   ⟨s8BIM', kXyzw, false, .raw [1, 2, 3]⟩]
+/-- excluded by (iii): raw bytes under a key whose data the reader decodes as a descriptor -/
+def metadataMismatch : MetadataSetting := ⟨s8BIM', kCust, false, .raw [1, 2, 3]⟩
+
+def annotation : Annotation :=
+  ⟨[116, 120, 116, 65], 1, 0, 1, [0, -1, 2147483647, -2147483648], [1, 2, 3, 4], lab, [74, 111], [], [50, 48, 50, 52, 33],
+   [116, 120, 116, 67], [0, 104, 0, 105]⟩
+def annotations : Annotations := ⟨2, 1, [annotation, { annotation with kind := [115, 110, 100, 77], data := [] }]⟩
+
+def pixelSources : List B := [[1, 2, 3], [], [9]]
 
 end PsdVerif.Payload.Samples
